@@ -56,3 +56,17 @@ def outcome(thunk, errbase=Exception):
         return ("ok", thunk())
     except errbase as e:
         return ("err", type(e).__name__)
+
+
+def untraced(thunk):
+    """Run thunk on the plain interpreter even inside a CrossHair run (for bodies whose inputs have
+    already been made concrete by selector comparisons and that CrossHair would only slow down or,
+    for functools.lru_cache, bypass)."""
+    try:
+        from crosshair.tracers import NoTracing, is_tracing
+    except ImportError:
+        return thunk()
+    if is_tracing():
+        with NoTracing():
+            return thunk()
+    return thunk()
